@@ -75,6 +75,32 @@ OPS = {
 }
 
 
+# kind matrix for the containment / union / intersection short-cut paths: every ordered pair of
+# {bounded simple, unbounded simple, hollow, unbounded connected, two components, unbounded disjoint}
+# in nested position (reduced mode: one injection pair per operand-state epoch)
+KINDS = {
+    "S+": ["L", "N.N2#int"],
+    "s+": ["L", "N.N4#int"],
+    "S-": ["L", "N.N4#int@cw"],
+    "s-": ["L", "N.N2#int@cw"],
+    "C+": ["-", ["L", "N.N2#int"], ["L", "N.N5#int"]],
+    "c+": ["-", ["L", "N.N3#int"], ["L", "N.N4#int"]],
+    "C-": ["PC", "xnear", "int"],
+    "D+": ["PC", "twonear", "int"],
+    "D-": ["~", ["-", ["L", "N.N3#int"], ["L", "N.N4#int"]]],
+}
+MATRIX = []
+for _a in KINDS:
+    for _b in KINDS:
+        if _a != _b:
+            MATRIX.append((_a, _b))
+for _a, _b in MATRIX:
+    OPS["%s in %s" % (_a, _b)] = ((KINDS[_a], KINDS[_b]), lambda o: o[0] in o[1], "reduced", "reduced")
+for _a, _b in MATRIX[::3]:
+    OPS["%s | %s" % (_a, _b)] = ((KINDS[_a], KINDS[_b]), lambda o: o[0] | o[1], None, "reduced")
+    OPS["%s & %s" % (_a, _b)] = ((KINDS[_a], KINDS[_b]), lambda o: o[0] & o[1], None, "reduced")
+
+
 def fingerprint(operands):
     """Fast structural fingerprint of the operands (identity-free): every coordinate,
     the segmentation and the cached signed lengths."""
